@@ -12,6 +12,7 @@ def dispatch (line : String) : String :=
   | "DL" :: toks => Drv.DeadlineD.handle toks
   | "WN" :: toks => Drv.DeadlineD.handleWait toks
   | "SS" :: toks => Drv.SessionD.handle toks
+  | "IA" :: toks => Drv.IaD.handle toks
   | "RP" :: toks => Drv.ReplD.handle toks
   | "RC" :: toks => Drv.ReplD.handleClean toks
   | "AY" :: toks => Drv.AsyncD.handle toks
